@@ -61,6 +61,9 @@ type Term struct {
 	// ... and to the signed (ivS) reading
 	ivS *Term
 	ivSMin bool // the signed value is known to be >= 0 (so subtracting a small constant cannot wrap)
+	// back-pointer of an Int term that is the signed / unsigned reading of a 64-bit vector: converting it
+	// back (big.Int.Int64 / Uint64) yields that vector instead of an int2bv term
+	bvS, bvU *Term
 }
 
 func (t *Term) String() string { return t.s }
@@ -699,11 +702,22 @@ func (tb *TB) BV2Int(a *Term, signed bool) *Term {
 	}
 	n := tb.mk(SInt, "bv2nat", a)
 	if !signed {
+		if w == 64 && n.bvU == nil {
+			c := *n
+			c.bvU = a
+			return &c
+		}
 		return n
 	}
 	two := new(big.Int).Lsh(big.NewInt(1), uint(w))
 	neg := tb.BVLt(a, BVConst(0, w), true)
-	return tb.Ite(neg, tb.ISub(n, IntConst(two)), n)
+	r := tb.Ite(neg, tb.ISub(n, IntConst(two)), n)
+	if w == 64 && !r.c {
+		c := *r
+		c.bvS = a
+		return &c
+	}
+	return r
 }
 
 // Int2BV converts an Int to a bit-vector modulo 2^w.
